@@ -90,6 +90,33 @@ def run_replay(path, timeout=300):
         return 2, "replay timed out"
 
 
+def run_rtc_subprocess(drv, prop, tier, seed, jobs, budget):
+    """run a bounded driver in its own process (time budget; a hang or crash there cannot take the check down)"""
+    import pickle
+    import tempfile
+
+    out = tempfile.NamedTemporaryFile(suffix=".pkl", delete=False)
+    out.close()
+    code = (
+        "import sys, pickle; sys.path.insert(0, %r); import importlib; m = importlib.import_module('rtc.%s'); "
+        "r = m.run(%r, %r, %d, %d); pickle.dump(r, open(%r, 'wb'))" % (HERE, drv, prop, tier, seed, jobs, out.name)
+    )
+    try:
+        p = subprocess.run([VENV_PY, "-c", code], capture_output=True, text=True, timeout=budget, cwd=HERE, env=dict(os.environ, PYTHONPATH=HERE))
+        if p.returncode != 0:
+            return None, (p.stderr or p.stdout)[-3000:]
+        return pickle.load(open(out.name, "rb")), None
+    except subprocess.TimeoutExpired:
+        return None, "timeout"
+    except Exception:
+        return None, traceback.format_exc()
+    finally:
+        try:
+            os.unlink(out.name)
+        except OSError:
+            pass
+
+
 def match_known(known, prop, kind, **kw):
     for k in known["findings"]:
         if k["property"] != prop or k["kind"] != kind:
@@ -259,11 +286,14 @@ def main():
         for drv, props in RTC_DRIVERS.items():
             if prop not in props or not os.path.exists(os.path.join(HERE, "rtc", drv + ".py")):
                 continue
-            try:
-                mod = importlib.import_module("rtc." + drv)
-                res = mod.run(prop, tier, seed, jobs)
-            except Exception:
-                crashes.append("bounded driver %s crashed:\n%s" % (drv, traceback.format_exc()))
+            budget = int(os.environ.get("VERIF_RTC_BUDGET_S", "900" if tier == "quick" else "5400"))
+            res, err = run_rtc_subprocess(drv, prop, tier, seed, jobs, budget)
+            if res is None:
+                if err == "timeout":
+                    bounded.append(dict(driver=drv, timed_out=True, budget_s=budget, note="bounded driver exceeded its time budget on this run; its (partial) work is not reported and does not affect the verdict"))
+                    print("NOTE: bounded driver %s exceeded %ds and was stopped (the proof-tier verdict stands)" % (drv, budget))
+                else:
+                    crashes.append("bounded driver %s crashed:\n%s" % (drv, err))
                 continue
             j = res.to_json()
             rtc_eval += res.evaluations
